@@ -108,7 +108,54 @@ pub fn gen(tier: &str, seed: u64, outdir: &str) {
         let e = catch(|| { RQKernel::new(p[0], p[1], p[2]); vec![] });
         cs.push(app("CRqNew", vec![Tm::F(p[0]), Tm::F(p[1]), Tm::F(p[2]), outcome_list(&e)]), "rq/new", e.is_err());
     }
-    cs.write(outdir, 150, "kernel parameters log-uniform in (1e-2,1e2); scalar pairs in +-1e3 (equal, within a length scale, far apart, unrelated), owned and borrowed; matrix form on point sets of 1..14 (quick) / 1..60 (thorough) points passed as Vector or Matrix (row or column shaped), owned or borrowed, equal and different sets; the same through the composed component models on every argument kind with Matrix arguments of any shape r x c (flattened by reshape(-1, 1)) and empty Vector point sets (panic); constructors with valid and invalid parameters; every case carries the libm calls (exp, pow); non-trivial = distinct arguments (scalar), at least 2 points (matrix), rejected parameters (constructors); distinct by hash");
+    // ---- coverage audit: corners of the quantifier (own generator: the cases above stay what they were) ----
+    let mut r2 = Rng::new(seed ^ 0xA1C20);
+    let edge = [1.0000001e-2, 1.0, 99.99999];
+    // scalar form at the corners of the parameter box: the ends of +-1e3, zeros of both signs, neighbours in binary64, the distance where exp underflows
+    for (ci, &(x, y)) in [(-1e3, 1e3), (1e3, -1e3), (0.0, -0.0), (-0.0, 0.0), (1e3, f64::from_bits(1e3f64.to_bits() - 1)), (0.0, f64::from_bits(1)), (-1e3, -1e3)].iter().enumerate() {
+        for &var in &edge { for &ls in &edge {
+            let al = *r2.pick(&edge);
+            let (t, e) = rec(|| { let kk = RBFKernel::new(var, ls); if ci % 2 == 0 { kk.forward(x, y) } else { kk.forward(&x, &y) } });
+            cs.push(app("CRbf", vec![libm_table(&t), Tm::F(var), Tm::F(ls), Tm::F(x), Tm::F(y), outcome_list(&e.map(|v| vec![v]))]), "rbf/scalar/corner", x.to_bits() != y.to_bits());
+            let (t, e) = rec(|| { let kk = RQKernel::new(var, al, ls); if ci % 2 == 0 { kk.forward(x, y) } else { kk.forward(&x, &y) } });
+            cs.push(app("CRq", vec![libm_table(&t), Tm::F(var), Tm::F(al), Tm::F(ls), Tm::F(x), Tm::F(y), outcome_list(&e.map(|v| vec![v]))]), "rq/scalar/corner", x.to_bits() != y.to_bits());
+        }}
+    }
+    for i in 0..40 * k {
+        let (var, ls, al) = (*r2.pick(&edge), *r2.pick(&edge), *r2.pick(&edge));
+        let x: f64 = *r2.pick(&[1e3, -1e3, 0.0, 999.5, -37.0]);
+        let y = (x + (if x > 0.0 { -1.0 } else { 1.0 }) * ls * r2.uniform(36.0, 41.0)).max(-1e3).min(1e3);   // around 38.6 length scales: exp underflows
+        let (t, e) = rec(|| { let kk = RBFKernel::new(var, ls); if i % 2 == 0 { kk.forward(x, y) } else { kk.forward(&x, &y) } });
+        cs.push(app("CRbf", vec![libm_table(&t), Tm::F(var), Tm::F(ls), Tm::F(x), Tm::F(y), outcome_list(&e.map(|v| vec![v]))]), "rbf/scalar/underflow", true);
+        let (t, e) = rec(|| { let kk = RQKernel::new(var, al, ls); if i % 2 == 0 { kk.forward(x, y) } else { kk.forward(&x, &y) } });
+        cs.push(app("CRq", vec![libm_table(&t), Tm::F(var), Tm::F(al), Tm::F(ls), Tm::F(x), Tm::F(y), outcome_list(&e.map(|v| vec![v]))]), "rq/scalar/underflow", true);
+    }
+    // matrix form at the two ends of the size range (1 and 60 points, also at the quick tier) on the point sets where the expanded square cancels:
+    // clusters and regular grids far from the origin, exactly equal abscissae, the ends of +-1e3
+    for (i, &(n, m)) in [(1usize, 1usize), (1, 60), (60, 1), (60, 2), (2, 60), (59, 3), (60, 60), (60, 60)].iter().enumerate() {
+        let (var, ls, al) = if i % 2 == 0 { (*r2.pick(&edge), *r2.pick(&edge), *r2.pick(&edge)) } else { (param(&mut r2), param(&mut r2), param(&mut r2)) };
+        let mut set = |r: &mut Rng, n: usize| -> Vec<f64> { match i % 4 {
+            0 => { let c = r.uniform(-999.0, 999.0); (0..n).map(|_| c + r.uniform(-1.0, 1.0) * ls * *r.pick(&[1e-6, 1e-3, 1.0])).collect() }
+            1 => { let h = ls * 0.5; let a = r.uniform(900.0, 1e3 - h * n as f64); (0..n).map(|j| a + h * j as f64).collect() }
+            2 => (0..n).map(|j| *[-1e3, 1e3, 0.0, -0.0, 7.0, 7.0].get(j % 6).unwrap()).collect(),
+            _ => (0..n).map(|_| r.small_int(3)).collect(),
+        } };
+        let xs = set(&mut r2, n);
+        let ys = if n == m && i % 2 == 0 { xs.clone() } else { set(&mut r2, m) };
+        let form = i % 4;
+        let (t, e) = rec(|| mat_out(&rbf_m(&RBFKernel::new(var, ls), form, &xs, &ys)));
+        cs.push(app("CRbfM", vec![libm_table(&t), Tm::Nat(form as u64), Tm::F(var), Tm::F(ls), fl(&xs), fl(&ys), outcome_list(&e)]), &format!("rbf/matrix/ends/form{}", form), true);
+        let (t, e) = rec(|| mat_out(&rq_m(&RQKernel::new(var, al, ls), form, &xs, &ys)));
+        cs.push(app("CRqM", vec![libm_table(&t), Tm::Nat(form as u64), Tm::F(var), Tm::F(al), Tm::F(ls), fl(&xs), fl(&ys), outcome_list(&e)]), &format!("rq/matrix/ends/form{}", form), true);
+    }
+    // constructors: NaN and -inf are not positive numbers
+    for p in [[f64::NAN, 1.0, 1.0], [1.0, f64::NAN, 1.0], [1.0, 1.0, f64::NAN], [f64::NEG_INFINITY, 1.0, 1.0], [1.0, f64::NEG_INFINITY, 2.0], [2.0, 1.0, f64::NEG_INFINITY], [f64::NAN, f64::NAN, f64::NAN]] {
+        let e = catch(|| { RBFKernel::new(p[0], p[1]); vec![] });
+        cs.push(app("CRbfNew", vec![Tm::F(p[0]), Tm::F(p[1]), outcome_list(&e)]), "rbf/new/nan", e.is_err());
+        let e = catch(|| { RQKernel::new(p[0], p[1], p[2]); vec![] });
+        cs.push(app("CRqNew", vec![Tm::F(p[0]), Tm::F(p[1]), Tm::F(p[2]), outcome_list(&e)]), "rq/new/nan", e.is_err());
+    }
+    cs.write(outdir, 150, "kernel parameters log-uniform in (1e-2,1e2); scalar pairs in +-1e3 (equal, within a length scale, far apart, unrelated), owned and borrowed; matrix form on point sets of 1..14 (quick) / 1..60 (thorough) points passed as Vector or Matrix (row or column shaped), owned or borrowed, equal and different sets; the same through the composed component models on every argument kind with Matrix arguments of any shape r x c (flattened by reshape(-1, 1)) and empty Vector point sets (panic); constructors with valid and invalid parameters (zeros of both signs, NaN, infinities); the corners of the parameter box with scalar pairs at the ends of +-1e3, one ulp apart and around the distance where exp underflows, and point sets of exactly 1 and 60 points (clusters and grids far from the origin, equal abscissae) at both tiers; every case carries the libm calls (exp, pow); non-trivial = distinct arguments (scalar), at least 2 points (matrix), rejected parameters (constructors); distinct by hash");
 }
 
 fn jacobi_min_eig(a: &mut Vec<Vec<f64>>) -> f64 {
@@ -130,11 +177,82 @@ fn jacobi_min_eig(a: &mut Vec<Vec<f64>>) -> f64 {
     (0..n).map(|i| a[i][i]).fold(f64::INFINITY, f64::min)
 }
 
+fn next_up(x: f64) -> f64 { if x == 0.0 { f64::from_bits(1) } else if x > 0.0 { f64::from_bits(x.to_bits() + 1) } else { f64::from_bits(x.to_bits() - 1) } }
+fn next_down(x: f64) -> f64 { -next_up(-x) }
+const CANCEL: &str = ":cancellation-in-expanded-square";
+fn add(out: &mut Vec<Finding>, class: &str, what: String, input: String) { if !out.iter().any(|f| f.class == class) { out.push(Finding { class: class.into(), what, input }); } }
+
+/// how the two point sets are handed to the matrix form: `Form(f)` = the four row / column conventions of `rbf_m`; `Shaped(kind, shape of xs, shape of ys)` =
+/// argument kind 0..3 of `rbf_p` with a Matrix of any shape r x c (the Gram matrix is evaluated with the first shape on both sides)
+#[derive(Clone, Copy)]
+enum How { Form(usize), Shaped(usize, (usize, usize), (usize, usize)) }
+fn eval_m(name: &str, how: How, var: f64, al: f64, ls: f64, xs: &[f64], ys: &[f64], gram: bool) -> Result<Matrix, String> {
+    catch(|| match how {
+        How::Form(form) => if name == "rbf" { rbf_m(&RBFKernel::new(var, ls), form, xs, ys) } else { rq_m(&RQKernel::new(var, al, ls), form, xs, ys) },
+        How::Shaped(kind, sx, sy) => {
+            let sy = if gram { sx } else { sy };
+            if name == "rbf" { rbf_p(&RBFKernel::new(var, ls), kind, (sx.0, sx.1, xs), (sy.0, sy.1, ys)) } else { rq_p(&RQKernel::new(var, al, ls), kind, (sx.0, sx.1, xs), (sy.0, sy.1, ys)) }
+        }
+    })
+}
+
+/// the matrix-form clauses on one pair of point sets, both kernels: shape, entry = scalar form, Gram matrix of `xs` symmetric and positive semi-definite
+fn check_sets(out: &mut Vec<Finding>, tried: &mut u64, r: &mut Rng, how: How, var: f64, al: f64, ls: f64, xs: &[f64], ys: &[f64]) {
+    let (n, m) = (xs.len(), ys.len());
+    let hows = match how { How::Form(f) => format!("form={}", f), How::Shaped(k, sx, sy) => format!("kind={} xs_shape={}x{} ys_shape={}x{}", k, sx.0, sx.1, sy.0, sy.1) };
+    for name in ["rbf", "rq"] {
+        *tried += 1;
+        let inp = format!("kernel={} {} var={:e} alpha={:e} length_scale={:e} xs={} ys={}", name, hows, var, al, ls, json_floats(xs), json_floats(ys));
+        crumb(&inp);
+        let sc = |a: f64, b: f64| if name == "rbf" { RBFKernel::new(var, ls).forward(a, b) } else { RQKernel::new(var, al, ls).forward(a, b) };
+        let got = eval_m(name, how, var, al, ls, xs, ys, false);
+        match got {
+            Err(e) => add(out, &format!("{}:matrix-form-panics", name), format!("matrix form panicked: {}", e), inp.clone()),
+            Ok(g) => {
+                if g.nrows != n || g.ncols != m { add(out, &format!("{}:matrix-shape", name), format!("matrix form is {}x{}, expected {}x{}", g.nrows, g.ncols, n, m), inp.clone()); continue; }
+                for i in 0..n { for j in 0..m {
+                    let (a, b) = (g[[i, j]], sc(xs[i], ys[j]));
+                    // cancellation in x^2 + y^2 - 2xy: absolute error eps*(|x|+|y|)^2 in the squared distance
+                    let u = 4.0 * f64::EPSILON * (xs[i].abs() + ys[j].abs()).powi(2) / (2.0 * ls * ls) * if name == "rbf" { 1.0 } else { 1.0 };
+                    // results in the subnormal range are quantised to 2^-1074: exp / powf may each be off by one such unit before the
+                    // multiplication by var (seen at thorough: k = 3.3e-312 with var = 3 differs by 3 units), so the allowance has an absolute floor
+                    let tol = b.abs() * (u.exp() - 1.0 + 64.0 * f64::EPSILON * (1.0 + al)) + (2.0 * var + 2.0) * f64::from_bits(1);
+                    if !((a - b).abs() <= tol) { add(out, &format!("{}:matrix-entry-differs-from-scalar", name), format!("entry ({},{}) = {:e}, scalar form {:e}", i, j, a, b), inp.clone()); }
+                }}
+            }
+        }
+        // Gram matrix on xs: symmetric, PSD (Cholesky-free: LDL^T in f64 with a floor of -c n eps var)
+        let g = eval_m(name, how, var, al, ls, xs, xs, true);
+        if let Ok(g) = g {
+            let mut a: Vec<Vec<f64>> = (0..n).map(|i| (0..n).map(|j| g[[i, j]]).collect()).collect();
+            let mut sym = true;
+            for i in 0..n { for j in 0..n { if (a[i][j] - a[j][i]).abs() > 1e-9 * var { sym = false; } } }
+            if !sym { add(out, &format!("{}:gram-asymmetric", name), "Gram matrix is not symmetric".into(), inp.clone()); }
+            // quadratic forms with random and adversarial (alternating) coefficient vectors
+            let floor = -1e-9 * var * (n as f64) * (n as f64);
+            // What is demanded is unchanged (the two floors).  A failure is filed under its own class key when its size is what the rounding of the
+            // expanded square x^2 + y^2 - 2xy explains (absolute error of the order eps (|x|+|y|)^2 in the squared distance, the allowance of the entry
+            // clause above: the Gram matrix is then within var * umax per entry of the scalar form's, hence its eigenvalues within n * var * umax),
+            // so that a kernel that is not positive semi-definite for another reason keeps the plain key
+            let mut umax = 0.0f64;
+            for i in 0..n { for j in 0..n { umax = umax.max((4.0 * f64::EPSILON * (xs[i].abs() + xs[j].abs()).powi(2) / (2.0 * ls * ls)).exp_m1()); } }
+            for t in 0..6 {
+                let c: Vec<f64> = (0..n).map(|i| if t == 0 { if i % 2 == 0 { 1.0 } else { -1.0 } } else { r.uniform(-1.0, 1.0) }).collect();
+                let mut q = 0.0; for i in 0..n { for j in 0..n { q += c[i] * a[i][j] * c[j]; } }
+                if !(q >= floor) { add(out, &format!("{}:gram-not-psd{}", name, if q >= floor - var * umax * (n * n) as f64 { CANCEL } else { "" }), format!("c^T K c = {:e} < 0 for a coefficient vector c", q), inp.clone()); break; }
+            }
+            // smallest eigenvalue by cyclic Jacobi (backward stable: error ~ n*eps*||K||); floor -1e-10*n^2*var
+            let lam = jacobi_min_eig(&mut a);
+            let lfloor = -1e-10 * var * (n * n) as f64;
+            if !(lam >= lfloor) { add(out, &format!("{}:gram-not-psd{}", name, if lam >= lfloor - var * umax * n as f64 { CANCEL } else { "" }), format!("smallest eigenvalue of the Gram matrix is {:e} (variance {:e}, {} points)", lam, var, n), inp.clone()); }
+        }
+    }
+}
+
 pub fn oracle(tier: &str, seed: u64) -> (u64, Vec<Finding>) {
     let thorough = tier == "thorough";
     let mut r = Rng::new(seed ^ 0x0C20);
     let mut out: Vec<Finding> = vec![]; let mut tried = 0u64;
-    let mut add = |out: &mut Vec<Finding>, class: &str, what: String, input: String| { if !out.iter().any(|f| f.class == class) { out.push(Finding { class: class.into(), what, input }); } };
     let iters = if thorough { 40000 } else { 4000 };
     for _ in 0..iters {
         let (var, ls, al) = (param(&mut r), param(&mut r), param(&mut r));
@@ -167,52 +285,88 @@ pub fn oracle(tier: &str, seed: u64) -> (u64, Vec<Finding>) {
         let xs: Vec<f64> = (0..n).map(|_| r.uniform(-4.0, 4.0) * scale).collect();
         let ys: Vec<f64> = (0..m).map(|_| r.uniform(-4.0, 4.0) * scale).collect();
         let form = (it % 4) as usize;
-        for name in ["rbf", "rq"] {
-            tried += 1;
-            let inp = format!("kernel={} form={} var={:e} alpha={:e} length_scale={:e} xs={} ys={}", name, form, var, al, ls, json_floats(&xs), json_floats(&ys));
-            crumb(&inp);
-            let sc = |a: f64, b: f64| if name == "rbf" { RBFKernel::new(var, ls).forward(a, b) } else { RQKernel::new(var, al, ls).forward(a, b) };
-            let got = catch(|| if name == "rbf" { rbf_m(&RBFKernel::new(var, ls), form, &xs, &ys) } else { rq_m(&RQKernel::new(var, al, ls), form, &xs, &ys) });
-            match got {
-                Err(e) => add(&mut out, &format!("{}:matrix-form-panics", name), format!("matrix form panicked: {}", e), inp.clone()),
-                Ok(g) => {
-                    if g.nrows != n || g.ncols != m { add(&mut out, &format!("{}:matrix-shape", name), format!("matrix form is {}x{}, expected {}x{}", g.nrows, g.ncols, n, m), inp.clone()); continue; }
-                    for i in 0..n { for j in 0..m {
-                        let (a, b) = (g[[i, j]], sc(xs[i], ys[j]));
-                        // cancellation in x^2 + y^2 - 2xy: absolute error eps*(|x|+|y|)^2 in the squared distance
-                        let u = 4.0 * f64::EPSILON * (xs[i].abs() + ys[j].abs()).powi(2) / (2.0 * ls * ls) * if name == "rbf" { 1.0 } else { 1.0 };
-                        // results in the subnormal range are quantised to 2^-1074: exp / powf may each be off by one such unit before the
-                        // multiplication by var (seen at thorough: k = 3.3e-312 with var = 3 differs by 3 units), so the allowance has an absolute floor
-                        let tol = b.abs() * (u.exp() - 1.0 + 64.0 * f64::EPSILON * (1.0 + al)) + (2.0 * var + 2.0) * f64::from_bits(1);
-                        if !((a - b).abs() <= tol) { add(&mut out, &format!("{}:matrix-entry-differs-from-scalar", name), format!("entry ({},{}) = {:e}, scalar form {:e}", i, j, a, b), inp.clone()); }
-                    }}
-                }
-            }
-            // Gram matrix on xs: symmetric, PSD (Cholesky-free: LDL^T in f64 with a floor of -c n eps var)
-            let g = catch(|| if name == "rbf" { rbf_m(&RBFKernel::new(var, ls), form, &xs, &xs) } else { rq_m(&RQKernel::new(var, al, ls), form, &xs, &xs) });
-            if let Ok(g) = g {
-                let mut a: Vec<Vec<f64>> = (0..n).map(|i| (0..n).map(|j| g[[i, j]]).collect()).collect();
-                let mut sym = true;
-                for i in 0..n { for j in 0..n { if (a[i][j] - a[j][i]).abs() > 1e-9 * var { sym = false; } } }
-                if !sym { add(&mut out, &format!("{}:gram-asymmetric", name), "Gram matrix is not symmetric".into(), inp.clone()); }
-                // quadratic forms with random and adversarial (alternating) coefficient vectors
-                let floor = -1e-9 * var * (n as f64) * (n as f64);
-                for t in 0..6 {
-                    let c: Vec<f64> = (0..n).map(|i| if t == 0 { if i % 2 == 0 { 1.0 } else { -1.0 } } else { r.uniform(-1.0, 1.0) }).collect();
-                    let mut q = 0.0; for i in 0..n { for j in 0..n { q += c[i] * a[i][j] * c[j]; } }
-                    if !(q >= floor) { add(&mut out, &format!("{}:gram-not-psd", name), format!("c^T K c = {:e} < 0 for a coefficient vector c", q), inp.clone()); break; }
-                }
-                // smallest eigenvalue by cyclic Jacobi (backward stable: error ~ n*eps*||K||); floor -1e-10*n^2*var
-                let lam = jacobi_min_eig(&mut a);
-                if !(lam >= -1e-10 * var * (n * n) as f64) { add(&mut out, &format!("{}:gram-not-psd", name), format!("smallest eigenvalue of the Gram matrix is {:e} (variance {:e}, {} points)", lam, var, n), inp.clone()); }
-            }
-        }
+        check_sets(&mut out, &mut tried, &mut r, How::Form(form), var, al, ls, &xs, &ys);
     }
     // invalid parameters must be rejected
     for p in [(0.0, 1.0, 1.0), (-1.0, 1.0, 1.0), (1.0, 0.0, 1.0), (1.0, -2.0, 1.0), (1.0, 1.0, 0.0), (1.0, 1.0, -1.0)] {
         tried += 1;
         if catch(|| RQKernel::new(p.0, p.1, p.2)).is_ok() { add(&mut out, "rq:invalid-parameters-accepted", format!("RQKernel::new{:?} did not panic", p), format!("{:?}", p)); }
         if (p.0 <= 0.0 || p.2 <= 0.0) && catch(|| RBFKernel::new(p.0, p.2)).is_ok() { add(&mut out, "rbf:invalid-parameters-accepted", format!("RBFKernel::new({},{}) did not panic", p.0, p.2), format!("{:?}", p)); }
+    }
+    // ---- coverage audit: the rest of the quantifier (own generator, so that the evaluation points above stay what they were) ----
+    let mut r2 = Rng::new(seed ^ 0xA0C20);
+    // (1) scalar form, owned AND borrowed, at the corners of the parameter box, for pairs anywhere in +-1e3 (coincident, one ulp apart, within a length
+    //     scale, around the distance where exp underflows (38.6 length scales), far apart, the two ends of the range), zero of either sign
+    let edge = [1.0000001e-2, 1.0, 99.99999];
+    let mut boxes: Vec<(f64, f64, f64)> = vec![];
+    for &v in &edge { for &l in &edge { for &a in &edge { boxes.push((v, l, a)); } } }
+    for _ in 0..(if thorough { 400 } else { 40 }) { boxes.push((param(&mut r2), param(&mut r2), param(&mut r2))); }
+    let steps = [0.0, 1e-12, 1e-8, 1e-4, 1e-2, 0.5, 1.0, 3.0, 8.0, 16.0, 20.0, 26.0, 27.3, 30.0, 36.0, 37.0, 38.0, 38.5, 38.6, 38.7, 39.0, 40.0, 45.0, 60.0, 100.0, 1e3, 1e4, 1e5, 2e5];
+    for &(var, ls, al) in &boxes {
+        let bases = [0.0, -0.0, 1e3, -1e3, r2.uniform(-1e3, 1e3), r2.small_int(1000), r2.uniform(-1.0, 1.0) * ls];
+        for &x in &bases {
+            let dir = if x > 0.0 { -1.0 } else { 1.0 };   // walk towards the interior so that every y stays in +-1e3
+            // the chain of second arguments: x itself, its neighbours in binary64, then x + dir * t * ls, clipped to the range
+            let mut chain: Vec<f64> = vec![x, if dir > 0.0 { next_up(x) } else { next_down(x) }];
+            for &t in &steps { let y = x + dir * t * ls; if y.abs() <= 1e3 { chain.push(y); } }
+            chain.push(if dir > 0.0 { 1e3 } else { -1e3 });
+            chain.sort_by(|a, b| (a - x).abs().partial_cmp(&(b - x).abs()).unwrap());
+            for name in ["rbf", "rq"] {
+                tried += 1;
+                let inp = format!("kernel={} var={:e} alpha={:e} length_scale={:e} x={:e} ys={}", name, var, al, ls, x, json_floats(&chain));
+                crumb(&inp);
+                let k = |a: f64, b: f64| if name == "rbf" { RBFKernel::new(var, ls).forward(a, b) } else { RQKernel::new(var, al, ls).forward(a, b) };
+                let kr = |a: f64, b: f64| if name == "rbf" { RBFKernel::new(var, ls).forward(&a, &b) } else { RQKernel::new(var, al, ls).forward(&a, &b) };
+                let ulp = 8.0 * f64::EPSILON;
+                let mut prev: Option<(f64, f64)> = None;
+                for &y in &chain {
+                    let d = (y - x).abs();
+                    let (kxy, kyx) = (k(x, y), k(y, x));
+                    if kr(x, y).to_bits() != kxy.to_bits() || kr(y, x).to_bits() != kyx.to_bits() { add(&mut out, &format!("{}:borrowed-differs-from-owned", name), format!("forward(&x,&y) = {:e}, forward(x,y) = {:e} at y = {:e}", kr(x, y), kxy, y), inp.clone()); }
+                    if d == 0.0 && !(kxy == var) { add(&mut out, &format!("{}:diag-not-variance", name), format!("k(x,x) = {:e}, variance {:e}", kxy, var), inp.clone()); }
+                    if !(kxy > 0.0 || (kxy == 0.0 && d > 30.0 * ls)) { add(&mut out, &format!("{}:not-positive", name), format!("k = {:e} at distance {:e}", kxy, d), inp.clone()); }
+                    if !(kxy <= var * (1.0 + ulp)) { add(&mut out, &format!("{}:exceeds-variance", name), format!("k(x,y) = {:e} > variance {:e} at distance {:e}", kxy, var, d), inp.clone()); }
+                    let rel = |a: f64, b: f64| (a - b).abs() <= 1e-9 * a.abs().max(b.abs()) + 1e-300;
+                    if !rel(kxy, kyx) { add(&mut out, &format!("{}:asymmetric", name), format!("k(x,y) = {:e}, k(y,x) = {:e} at y = {:e}", kxy, kyx, y), inp.clone()); }
+                    if let Some((dp, kp)) = prev { if !(kxy <= kp * (1.0 + ulp)) { add(&mut out, &format!("{}:increasing-in-distance", name), format!("k at distance {:e} is {:e} but at the larger distance {:e} it is {:e}", dp, kp, d, kxy), inp.clone()); } }
+                    prev = Some((d, kxy));
+                }
+            }
+        }
+    }
+    // (2) matrix form on the point sets the quantifier allows but the sets above never are: anywhere in +-1e3, regular grids far from the origin (time
+    //     stamps), integer abscissae, exactly equal and nearly equal abscissae, the ends of the range, 1 and 60 points, Matrix arguments of any shape
+    let wide = if thorough { 600 } else { 96 };
+    for it in 0..wide {
+        let (var, ls, al) = if it % 6 == 0 { *r2.pick(&boxes[..27]) } else { (param(&mut r2), param(&mut r2), param(&mut r2)) };
+        let size = |r: &mut Rng| -> usize { match r.below(6) { 0 => 1, 1 => 2, 2 => 60, 3 => 59, _ => 1 + r.below(if thorough { 60 } else { 24 }) as usize } };
+        let (n, m) = (size(&mut r2), size(&mut r2));
+        let style = it % 8;
+        let set = |r: &mut Rng, n: usize| -> Vec<f64> {
+            match style {
+                0 => (0..n).map(|_| r.uniform(-1e3, 1e3)).collect(),
+                1 => { let h = ls * *r.pick(&[0.1, 0.5, 1.0, 2.0]); let a = r.uniform(-1e3, 1e3 - h * n as f64).max(-1e3); (0..n).map(|i| (a + h * i as f64).min(1e3)).collect() }   // regular grid
+                2 => (0..n).map(|_| r.small_int(1000)).collect(),
+                3 => (0..n).map(|_| r.small_int(3)).collect(),                                                                     // many exactly equal abscissae
+                4 => { let c: Vec<f64> = (0..3).map(|_| r.uniform(-999.0, 999.0)).collect(); (0..n).map(|_| *r.pick(&c) + r.uniform(-1.0, 1.0) * ls * *r.pick(&[1e-9, 1e-6, 1e-3, 1.0])).collect() }   // clusters
+                5 => (0..n).map(|i| *[-1e3, 1e3, 0.0, -0.0, 999.99, -999.99].get(i % 6).unwrap()).collect(),                      // the ends of the range, zeros of both signs
+                6 => { let a = r.uniform(-1e3, 1e3); (0..n).map(|i| if i % 2 == 0 { a } else { r.uniform(-1e3, 1e3) }).collect() }  // one abscissa repeated
+                _ => (0..n).map(|_| r.uniform(-40.0, 40.0) * ls).collect(),                                                        // out to the underflow of exp
+            }
+        };
+        let xs = set(&mut r2, n);
+        let ys = if it % 3 == 0 { xs.clone() } else { set(&mut r2, m) };
+        let how = if it % 2 == 0 { How::Form(((it / 2) % 4) as usize) } else { How::Shaped(((it / 2) % 4) as usize, shape_of(&mut r2, xs.len()), shape_of(&mut r2, ys.len())) };
+        check_sets(&mut out, &mut tried, &mut r2, how, var, al, ls, &xs, &ys);
+    }
+    // (3) parameters that are not positive numbers must be rejected (either sign of zero, NaN, -inf)
+    for bad in [-0.0, f64::NAN, f64::NEG_INFINITY, -1e-300] {
+        for pos in 0..3 {
+            tried += 1;
+            let mut p = [1.0, 1.0, 1.0]; p[pos] = bad;
+            if catch(|| RQKernel::new(p[0], p[1], p[2])).is_ok() { add(&mut out, "rq:invalid-parameters-accepted", format!("RQKernel::new{:?} did not panic", p), format!("{:?}", p)); }
+            if pos != 1 && catch(|| RBFKernel::new(p[0], p[2])).is_ok() { add(&mut out, "rbf:invalid-parameters-accepted", format!("RBFKernel::new({},{}) did not panic", p[0], p[2]), format!("{:?}", p)); }
+        }
     }
     (tried, out)
 }
